@@ -5,7 +5,7 @@ CONSTANTS
   InitOrder <- Order3Late
   ASOf <- AS3
   UploadSets <- U_t3m5_nm
-  Windows = {2, 3, 8}
+  Windows = {2, 8}
   InitWindow = 8
   Video <- Vid3
   NoBtrt <- T3
